@@ -171,6 +171,13 @@ def _op_parameters(op) -> list:
         # the rotation angle is fixed, the constructor takes no arguments
         params = []
 
+    if getattr(op, "dagger", False):
+        # neither format has a syntax for the formal inverse of a gate: write the inverse gate out
+        if name in ("Fouriergate", "MZgate", "sMZgate"):
+            # negating the first parameter does not give the inverse of these gates
+            raise NotImplementedError(f"The inverse of {name} cannot be serialized.")
+        params[0] = -params[0]
+
     return params
 
 
